@@ -24,7 +24,9 @@ CONSTANTS Dev,        \* named deviations of the real code (DESIGN 2.6)
           Shapes, Denials, QKinds,
           AdvActs,    \* adversary actions enabled in this configuration
           EntQKinds,  \* query kinds explored in the ENT hierarchy shapes
-          MaxRuns     \* validations of the same question on ONE context (caches persist)
+          MaxRuns,    \* validations of the same question on ONE context (caches persist)
+          AnchorForms, \* how the trust anchors are configured (routes of anchor.rs)
+          Cfgs        \* validator configurations (context::Config routes / values)
 
 DevNames == {"D_nsec3_label_expect", "D_ttl0_node_panic", "D_extra_rrset_ignored",
              "D_sigcache_ignores_time"}
@@ -32,11 +34,36 @@ DevNames == {"D_nsec3_label_expect", "D_ttl0_node_panic", "D_extra_rrset_ignored
 -----------------------------------------------------------------------------
 (* Hierarchy *)
 
+VARIABLE scn      \* [shape, denial, qk, anc, cfg]
+
+\* Trust anchor configuration.  Forms that are mere routes to the same anchor
+\* set (one DNSKEY record for the root: TrustAnchors::from_u8; empty() +
+\* add_u8; from_reader; the root key given as DS record; several records and
+\* anchors, one of them the root key) behave alike.  "both": anchors for the
+\* root and for tld - the longest match wins, the chain starts at tld.
+\* "none" / "elsewhere": no anchor above the names in question (RFC 4035 4.3:
+\* Indeterminate).
+AnchorAliases == {"dnskey", "ds", "add_u8", "reader", "multi"}
+AZ == CASE scn.anc = "both" -> "tld"
+        [] scn.anc \in {"none", "elsewhere"} -> "nowhere"
+        [] OTHER -> "root"
+Anchored == AZ # "nowhere"
+
+\* Validator configuration (context::Config).  "new" (Config::new()), "setdef"
+\* (every setter called with its documented default) and "tiny" (all cache
+\* sizes 1, shortest validities) are routes to the default behaviour.
+\* "bad2": set_bad_signatures(2).  "cname1": set_max_cname_dname(1).
+\* "iterins0" / "iterbog0": set_nsec3_iter_insecure(0) / set_nsec3_iter_bogus(0)
+\* - the zones' NSEC3 iteration count (1) is above the limit.
+CfgAliases == {"default", "new", "setdef", "tiny"}
+IterIns == scn.cfg = "iterins0" /\ scn.denial # "nsec"
+IterBog == scn.cfg = "iterbog0" /\ scn.denial # "nsec"
+
 Parent(z) == CASE z = "tld" -> "root" [] z = "zone" -> "tld" [] z = "sub" -> "zone"
                [] z = "other" -> "tld" [] z = "plain" -> "tld" [] OTHER -> "root"
 
 RECURSIVE Path(_)          \* root ... z
-Path(z) == IF z = "root" THEN <<"root">> ELSE Append(Path(Parent(z)), z)
+Path(z) == IF z = AZ \/ z = "root" THEN <<z>> ELSE Append(Path(Parent(z)), z)
 Anc(z) == {Path(z)[i] : i \in 1..Len(Path(z))}     \* ancestors or self
 
 Four(sh) == sh \in {"secure4", "insecure4"}
@@ -46,6 +73,9 @@ LeafSecure(sh) == sh \in {"secure3", "secure4", "entapex_s", "entname_s"}
 \* ENT sorts directly after the tld apex, or after an ordinary name): the
 \* walk asks for DS at the ENT first
 EntShape(sh) == sh \in {"entapex_s", "entapex_i", "entname_s", "entname_i"}
+\* the zone that answers the question
+QZone == IF scn.qk = "ds" THEN Parent(Leaf(scn.shape))
+         ELSE IF scn.qk = "dnamex" THEN "plain" ELSE Leaf(scn.shape)
 Signed(sh, z) == CASE z = "plain" -> FALSE
                    [] z = Leaf(sh) -> LeafSecure(sh)
                    [] OTHER -> TRUE
@@ -55,7 +85,7 @@ Signed(sh, z) == CASE z = "plain" -> FALSE
 
 Key(z) == <<"K", z>>
 AdvKey == <<"K", "adv">>
-Anchor == Key("root")
+Anchor == Key(AZ)
 Sign(k, c) == [key |-> k, over |-> c]
 
 \* what a signature commits to: owner/type identity (role, zone) and rdata
@@ -80,9 +110,10 @@ Data(sh, role, z, depth, wild) == Signd(sh, Grp(role, "data", z, "good", NoPrf, 
 Soa(sh, z) == Signd(sh, Grp("soa", "soa", z, "good", NoPrf, FALSE, 0))
 \* depth = labels of the proof record's owner below the apex (NSEC: the
 \* covering record's real owner; NSEC3: the hash label)
+WildKinds == {"wildcard", "wilddeep", "wcname", "wcnodata"}
 PDepth(den, role, qk) == IF den # "nsec" THEN 1
-                         ELSE IF role = "wc" THEN 0
-                         ELSE IF role = "nx" /\ qk = "wildcard" THEN 2 ELSE 1
+                         ELSE IF role = "wc" THEN (IF qk = "wcnodata" THEN 2 ELSE 0)
+                         ELSE IF role = "nx" /\ qk \in WildKinds THEN 2 ELSE 1
 ProofD(sh, den, role, z, oo, d) ==
   Signd(sh, Grp(role, "proof", z, "good", Prf(den, oo /\ den = "optout"), FALSE, d))
 Proof(sh, den, role, z, oo) == ProofD(sh, den, role, z, oo, 1)
@@ -96,6 +127,19 @@ HonestAnswer(sh, den, qk) ==
   CASE qk = "positive" -> <<Data(sh, "ans", z, 1, FALSE)>>
     [] qk = "wildcard" -> <<Data(sh, "ans", z, 2, TRUE)>> \o
                           Proofs(sh, z, <<ProofD(sh, den, "nx", z, TRUE, PDepth(den, "nx", qk))>>)
+    \* the wildcard expanded over two labels (no name in between exists)
+    [] qk = "wilddeep" -> <<Data(sh, "ans", z, 3, TRUE)>> \o
+                          Proofs(sh, z, <<ProofD(sh, den, "nx", z, TRUE, PDepth(den, "nx", qk))>>)
+    \* a wildcard CNAME (do_cname_dname checks the expansion like an answer's)
+    [] qk = "wcname"   -> <<Data(sh, "cname1", z, 2, TRUE), Data(sh, "ans", z, 1, FALSE)>> \o
+                          Proofs(sh, z, <<ProofD(sh, den, "nx", z, TRUE, PDepth(den, "nx", qk))>>)
+    \* wildcard NODATA (RFC 4035 3.1.3.4, RFC 5155 7.2.5): the name does not
+    \* exist, the wildcard does but has no such type
+    [] qk = "wcnodata" -> <<Soa(sh, z)>> \o
+                          Proofs(sh, z, <<ProofD(sh, den, "nx", z, TRUE, PDepth(den, "nx", qk))>> \o
+                                        (IF den = "nsec" THEN <<>>
+                                         ELSE <<Proof(sh, den, "ce", z, FALSE)>>) \o
+                                        <<ProofD(sh, den, "wc", z, FALSE, PDepth(den, "wc", qk))>>)
     [] qk = "nodata"   -> <<Soa(sh, z)>> \o Proofs(sh, z, <<Proof(sh, den, "nd", z, FALSE)>>)
     [] qk = "nxdomain" -> <<Soa(sh, z)>> \o
                           Proofs(sh, z, (IF den = "nsec" THEN <<>>
@@ -159,7 +203,7 @@ SigValid(s, g, keys) == /\ s.sg.key \in keys
 TheSig(g) == CHOOSE s \in g.sigs : TRUE
 \* max_bad_signatures (default): failed verifications tolerated per RRset;
 \* the failing RRSIGs count only when they are tried before the good one
-MaxBad == 1
+MaxBad == IF scn.cfg = "bad2" THEN 2 ELSE 1
 TooManyBad(g) == g.bad.first /\ g.bad.n > MaxBad
 \* validate_with_node tries every key of the node with the signature's tag:
 \* a second key with a colliding tag fails once for the good signature when it
@@ -171,6 +215,7 @@ TooManyBadWith(g, keys) ==
   + (IF CollFirstIn(keys) THEN 1 ELSE 0) > MaxBad
 
 Meet(a, b) == IF "Bogus" \in {a, b} THEN "Bogus"
+              ELSE IF "Indeterminate" \in {a, b} THEN "Indeterminate"
               ELSE IF "Insecure" \in {a, b} THEN "Insecure" ELSE "Secure"
 
 Has(m, role) == \E i \in 1..Len(m) : m[i].role = role
@@ -181,8 +226,7 @@ IsProofRole(r) == r \in {"nd", "nx", "ce", "wc"}
 -----------------------------------------------------------------------------
 (* State *)
 
-VARIABLES scn,      \* [shape, denial, qk]
-          budget,   \* rewrites left to the adversary
+VARIABLES budget,   \* rewrites left to the adversary
           advlog,   \* the adversary's rewrites so far: <<[act,t,z,role]>>
           pc, pend, \* control state; the message in flight is for fetch pend
           inbox,    \* message on the wire / last delivered
@@ -209,7 +253,8 @@ AllZones == {"root", "tld", "zone", "sub", "other", "plain"}
 FKey(t, z) == <<t, z>>
 
 Init ==
-  /\ scn \in {x \in [shape : Shapes, denial : Denials, qk : QKinds] :
+  /\ scn \in {x \in [shape : Shapes, denial : Denials, qk : QKinds, anc : AnchorForms,
+                        cfg : Cfgs] :
                   EntShape(x.shape) => x.qk \in EntQKinds}
   /\ budget = Budget /\ advlog = <<>>
   /\ pc = "wire" /\ pend = [t |-> "ANS", z |-> Leaf(scn.shape)]
@@ -286,9 +331,10 @@ Adv_NotYetValid ==
 \* guard): up to that number nothing may change.
 Adv_AddBadSig ==
   /\ pc = "wire"
-  /\ \E n \in {1, 2}, first \in BOOLEAN :
+  /\ \E n \in (IF MaxBad = 1 THEN {1, 2} ELSE {1, 2, 3}), first \in BOOLEAN :
         /\ CanAdv("AddBadSig") /\ SignedRole("ans")
-        /\ Rewrite("AddBadSig" \o (IF n = 1 THEN "1" ELSE "2") \o (IF first THEN "First" ELSE "Last"),
+        /\ Rewrite("AddBadSig" \o (CASE n = 1 -> "1" [] n = 2 -> "2" [] OTHER -> "3")
+                               \o (IF first THEN "First" ELSE "Last"),
                    "ans", MapRole(inbox, "ans", LAMBDA g : [g EXCEPT !.bad = [n |-> n, first |-> first]]))
 
 \* NXDOMAIN / NODATA for a name below a DNAME owner or below a zone cut,
@@ -441,12 +487,77 @@ Adv_CnameLoop ==
   /\ CanAdv("CnameLoop") /\ pend.t = "ANS" /\ scn.qk = "positive" /\ MaxRuns = 1
   /\ Rewrite("CnameLoop", "", LoopAnswer(scn.shape))
 
+\* A genuine, validly signed proof record of the zone that shows something
+\* else than the answer needs ("deeper": the name does not exist, but its
+\* closest encloser is not the wildcard's parent; "matches": the name exists)
+OtherProof(z, role, cov) ==
+  LET h == Grp(role, "proof", z, "other",
+               [flavour |-> IF scn.denial = "nsec" THEN "nsec" ELSE "nsec3",
+                covers |-> cov, optout |-> FALSE], FALSE, 2)
+  IN [h EXCEPT !.sigs = {Sig(z, h, "ok")}]
+
+\* The genuine wildcard RRset (and RRSIG, labels field and all) is replayed
+\* where the wildcard does not apply (RFC 4592 3.3.1, RFC 4035 5.3.4):
+\*  Below: at a name two labels below the wildcard's parent although the name
+\*         in between exists - with the genuine denial for that name (true
+\*         answer: NXDOMAIN; the proof's closest encloser is the deeper name);
+\*  At:    at an existing name that lacks the type, with the NSEC/NSEC3
+\*         matching that name (true answer: NODATA);
+\*  CnameBelow: as Below with a wildcard CNAME heading a chain.
+Adv_MisapplyWildcard ==
+  /\ pc = "wire"
+  /\ \E k \in {"Below", "At", "CnameBelow"} :
+        /\ CanAdv("MisapplyWildcard") /\ pend.t = "ANS" /\ scn.qk = "nxdomain"
+        /\ MaxRuns = 1 /\ SignedRole("soa")
+        /\ LET z == Leaf(scn.shape)
+               prf == OtherProof(z, "nx", IF k = "At" THEN "matches" ELSE "deeper")
+           IN Rewrite("MisapplyWildcard" \o k, "nx",
+                 IF k = "CnameBelow"
+                 THEN <<Data(scn.shape, "cname1", z, 3, TRUE), Data(scn.shape, "ans", z, 1, FALSE), prf>>
+                 ELSE <<Data(scn.shape, "ans", z, IF k = "At" THEN 2 ELSE 3, TRUE), prf>>)
+
+\* An existing RRset is denied: NODATA ("Nd") or NXDOMAIN ("Nx") with the zone's
+\* SOA and the genuine NSEC/NSEC3 matching the name (its bitmap lists the type)
+Adv_DenyExisting ==
+  /\ pc = "wire"
+  /\ \E k \in {"Nd", "Nx"} :
+        /\ CanAdv("DenyExisting") /\ pend.t = "ANS" /\ scn.qk = "positive"
+        /\ MaxRuns = 1 /\ SignedRole("ans")
+        /\ LET z == Leaf(scn.shape) IN
+           Rewrite("DenyExisting" \o k, IF k = "Nd" THEN "nd" ELSE "nx",
+                   <<Soa(scn.shape, z), OtherProof(z, IF k = "Nd" THEN "nd" ELSE "nx", "matches")>>)
+
+\* Message form, nothing a signature covers: every RRSIG precedes the RRset it
+\* covers (Group::new / Group::add start a group from an RRSIG); every record
+\* appears twice (found_duplicate).  Nothing may change.
+SomeSigned == \E i \in 1..Len(inbox) : inbox[i].sigs # {}
+Adv_SigsFirst ==
+  /\ CanAdv("SigsFirst") /\ SomeSigned
+  /\ Rewrite("SigsFirst", "", inbox)
+Adv_Duplicate ==
+  /\ CanAdv("Duplicate") /\ inbox # <<>>
+  /\ Rewrite("Duplicate", "", inbox)
+
+\* the RRset is removed, its RRSIG stays behind ("RRSIG without RRset")
+Adv_OrphanSig ==
+  /\ pc = "wire"
+  /\ \E r \in {"ans", "cname1", "soa", "nx"} :
+        /\ CanAdv("OrphanSig") /\ SignedRole(r)
+        /\ Rewrite("OrphanSig", r, Without(inbox, LAMBDA g : g.role = r))
+
+\* the negative answer carries the (validly signed) SOA of another zone
+Adv_WrongSoa ==
+  /\ CanAdv("WrongSoa") /\ pend.t = "ANS" /\ SignedRole("soa")
+  /\ Rewrite("WrongSoa", "soa", MapRole(inbox, "soa", LAMBDA g : Soa(scn.shape, "other")))
+
 AdvNext == \/ Adv_DropRrsig \/ Adv_DropRrset \/ Adv_ReplaceRdata \/ Adv_WrongSigner
            \/ Adv_Expire \/ Adv_NotYetValid \/ Adv_ShortSig \/ Adv_AddCollidingKey \/ Adv_AddExtraDs \/ Adv_CorruptSigOctets \/ Adv_HideCe
            \/ Adv_ReplayAncestor \/ Adv_ForgeSigned \/ Adv_AddBadSig \/ Adv_CorruptKey \/ Adv_CorruptDs
            \/ Adv_StripProof \/ Adv_ForgeNsecRange \/ Adv_SwapProof
            \/ Adv_BadNsec3Label \/ Adv_BadNsec3LabelSigned \/ Adv_ZeroCounts
            \/ Adv_ZeroTtl \/ Adv_Inject \/ Adv_CnameLoop
+           \/ Adv_MisapplyWildcard \/ Adv_DenyExisting \/ Adv_SigsFirst \/ Adv_Duplicate
+           \/ Adv_OrphanSig \/ Adv_WrongSoa
 
 ZeroTtlOn(t, z) == \E i \in 1..Len(advlog) :
                       advlog[i].act = "ZeroTtl" /\ advlog[i].t = t /\ advlog[i].z = z
@@ -498,9 +609,11 @@ UsesTtl0(z) == "D_ttl0_node_panic" \in Dev /\ \E a \in Anc(z) : a \in ttl0
 
 StartGroup ==
   /\ pc = "group" /\ gi <= Len(msg) /\ Step
-  /\ LET g == msg[gi] w == Need(Path(Target(g)), 1) IN
+  /\ LET g == msg[gi]
+         \* get_node: no trust anchor above the name - an Indeterminate node, no fetch
+         w == IF Anchored THEN Need(Path(Target(g)), 1) ELSE <<>> IN
        /\ walk' = w
-       /\ probes' = IF g.sigs = {} /\ ~AtCut(g) THEN g.depth ELSE 0
+       /\ probes' = IF g.sigs = {} /\ ~AtCut(g) /\ Anchored THEN g.depth ELSE 0
        /\ pc' = IF w # <<>> THEN "walk" ELSE "probe"
   /\ UNCHANGED <<late, shortz, run, hist, entp, scn, budget, advlog, pend, inbox, msg, gi, gst, node, tkeys, dsd,
                  ttl0, served, fetches, result>>
@@ -521,10 +634,10 @@ NeedEnt == walk # <<>> /\ Head(walk) = "zone" /\ EntShape(scn.shape) /\ ~entp
 FetchNext ==
   /\ pc = "walk" /\ walk # <<>> /\ ~NeedEnt /\ Step
   /\ LET z == Head(walk) IN
-       IF z # "root" /\ UsesTtl0(Parent(z))
+       IF z # AZ /\ UsesTtl0(Parent(z))
        THEN /\ Finish("panic")
             /\ UNCHANGED <<pend, inbox, fetches>>
-       ELSE /\ Issue(IF z = "root" THEN "DNSKEY" ELSE "DS", z)
+       ELSE /\ Issue(IF z = AZ THEN "DNSKEY" ELSE "DS", z)
             /\ UNCHANGED result
   /\ UNCHANGED <<late, shortz, run, hist, entp, scn, budget, advlog, msg, gi, gst, walk, node, tkeys, dsd, ttl0,
                  probes, served>>
@@ -556,7 +669,7 @@ EntProbe ==
 VerifyKey ==
   /\ pc = "vkey" /\ Step
   /\ LET z == pend.z
-         want == IF z = "root" THEN {Anchor} ELSE dsd   \* keys the DS RRset commits to
+         want == IF z = AZ THEN {Anchor} ELSE dsd   \* keys the anchor / the DS RRset commits to
          ok == /\ Has(inbox, "ans") /\ Get(inbox, "ans").kind = "dnskey"
                /\ LET g == Get(inbox, "ans") IN
                     /\ \E k \in want : /\ k \in g.rdata
@@ -595,7 +708,9 @@ VerifyDs ==
                 \/ Has(inbox, "nd") /\ ProofGood(Get(inbox, "nd"), p, keys)
                 \/ /\ Has(inbox, "nx") /\ ProofGood(Get(inbox, "nx"), p, keys)
                    /\ Get(inbox, "nx").prf.optout
-          IN /\ SetNode(z, IF insecure THEN "Insecure" ELSE "Bogus", {})
+             \* nsec3_for_ds: an iteration count above the configured limits
+             \* makes the (validly signed) NSEC3 proof Bogus / Insecure
+          IN /\ SetNode(z, IF insecure /\ ~IterBog THEN "Insecure" ELSE "Bogus", {})
              /\ UNCHANGED <<dsd, pend, inbox, fetches, result>>
   /\ shortz' = IF ShortMsg THEN shortz \cup {pend.z} ELSE shortz
   /\ UNCHANGED <<late, run, hist, entp, scn, budget, advlog, msg, gi, gst, probes, served>>
@@ -624,7 +739,8 @@ OptOutSpan(g) == scn.denial = "optout" /\
 \* Group::validate_with_node
 GroupState(g) ==
   LET e == EffNode(Target(g)) IN
-  IF node[e] # "Secure" THEN node[e]
+  IF ~Anchored THEN "Indeterminate"
+  ELSE IF node[e] # "Secure" THEN node[e]
   ELSE IF e # Target(g) THEN "Bogus"
   ELSE IF g.sigs = {} /\ OptOutSpan(g) THEN "Insecure"   \* nsec3_for_ds: opt-out span
   ELSE IF /\ g.sigs # {} /\ Target(g) \in Anc(g.zone)
@@ -653,23 +769,39 @@ MaxCname == 11
 Usable(role, signer) ==
   /\ Has(msg, role) /\ St(role) = "Secure"
   /\ LET g == Get(msg, role) IN g.prf.covers = "ok" /\ TheSig(g).signer = signer
-Down(role, st) == IF Get(msg, role).prf.optout THEN "Insecure" ELSE st
+\* get_checked_nsec3: iteration count above nsec3_iter_bogus / nsec3_iter_insecure
+Down(role, st) == IF IterBog THEN "Bogus"
+                  ELSE IF Get(msg, role).prf.optout \/ IterIns THEN "Insecure" ELSE st
 
 CnameCount == Cardinality({i \in 1..Len(msg) : msg[i].role \in {"cname1", "cname2"}})
 \* CNAME links needed before the final name: all present?
-ChainOk == CASE scn.qk = "cname1" -> Has(msg, "cname1")
+ChainOk == CASE scn.qk \in {"cname1", "wcname"} -> Has(msg, "cname1")
              [] scn.qk \in {"dname", "dnamex"} -> Has(msg, "dname")
              [] scn.qk = "cname2" -> Has(msg, "cname1") /\ Has(msg, "cname2")
              [] OTHER -> TRUE
-ChainState == LET a == IF Has(msg, "cname1") THEN St("cname1") ELSE "Secure"
+\* do_cname_dname: a CNAME expanded from a wildcard needs the proof that the
+\* name itself does not exist (check_not_exists_for_wildcard), as an answer does
+WildLink(role) ==
+  LET g == Get(msg, role) IN
+  IF g.wild /\ St(role) = "Secure"
+  THEN IF Usable("nx", TheSig(g).signer) THEN Down("nx", "Secure") ELSE "Bogus"
+  ELSE St(role)
+\* links followed before the final name (max_cname_dname)
+LinkCount(m) == IF Has(m, "cname1") THEN (IF Has(m, "cname2") THEN 2 ELSE 1)
+                ELSE IF Has(m, "dname") THEN 1 ELSE 0
+MaxLinks == IF scn.cfg = "cname1" THEN 1 ELSE MaxCname
+ChainState == LET a == IF Has(msg, "cname1") THEN WildLink("cname1") ELSE "Secure"
                   b == IF Has(msg, "cname2") /\ Has(msg, "cname1") THEN St("cname2")
                        ELSE "Secure"
                   \* do_cname_dname folds the state of every CNAME and DNAME it follows
                   c == IF Has(msg, "dname") THEN St("dname") ELSE "Secure"
               IN Meet(Meet(a, b), c)
 
+NegKinds == {"nodata", "nxdomain", "nxdeep", "wcnodata"}
+\* get_soa_state: a SOA whose owner does not enclose the name is passed over
+SoaFits(m) == Get(m, "soa").zone \in Anc(QZone)
 Negative(maybe) ==
-  IF ~Has(msg, "soa") THEN "Bogus"
+  IF ~Has(msg, "soa") \/ ~SoaFits(msg) THEN "Bogus"
   ELSE IF St("soa") # "Secure" THEN St("soa")
   ELSE LET signer == TheSig(Get(msg, "soa")).signer IN
        IF scn.qk = "nxdeep"
@@ -681,9 +813,14 @@ Negative(maybe) ==
        THEN IF Usable("nx", signer) /\ Usable("wc", signer)
             THEN Meet(maybe, Meet(Down("nx", "Secure"), Down("wc", "Secure")))
             ELSE "Bogus"
-       ELSE IF Usable("nd", signer) THEN Meet(maybe, "Secure")
+       ELSE IF scn.qk = "wcnodata"
+       THEN IF Usable("nx", signer) /\ Usable("wc", signer) /\
+               (scn.denial # "nsec" => Usable("ce", signer))
+            THEN Meet(maybe, Down("nx", "Secure"))
+            ELSE "Bogus"
+       ELSE IF Usable("nd", signer) THEN Meet(maybe, Down("nd", "Secure"))
        ELSE IF scn.qk = "ds" /\ Usable("nx", signer) /\ Get(msg, "nx").prf.optout
-            THEN "Insecure"
+            THEN Down("nx", "Insecure")
        ELSE "Bogus"
 
 BadLabelSeen == \E i \in 1..Len(msg) :
@@ -691,13 +828,13 @@ BadLabelSeen == \E i \in 1..Len(msg) :
                    /\ gst[i] = "Secure"
 
 Verdict ==
-  IF IsLoop(msg) THEN "Bogus"   \* more than MaxCname links
+  IF IsLoop(msg) \/ LinkCount(msg) > MaxLinks THEN "Bogus"   \* more than max_cname_dname links
   ELSE
   LET maybe == ChainState
       extra == IF "D_extra_rrset_ignored" \in Dev \/ ~Has(msg, "inj") THEN "Secure"
                ELSE St("inj")
   IN IF maybe = "Bogus" THEN "Bogus"
-     ELSE IF ChainOk /\ Has(msg, "ans") /\ scn.qk \notin {"nodata", "nxdomain", "nxdeep"}
+     ELSE IF ChainOk /\ Has(msg, "ans") /\ (scn.qk \notin NegKinds \/ Get(msg, "ans").wild)
      THEN LET st == St("ans") g == Get(msg, "ans") IN
           IF st # "Secure" THEN Meet(st, extra)
           ELSE IF ~g.wild THEN Meet(maybe, extra)
@@ -764,7 +901,8 @@ KeyRRsetOk(m, want) ==     \* want: the set of keys the anchor / the DS RRset co
 RECURSIVE ChainO(_), KeysO(_)
 KeysO(z) == IF ChainO(z) = "Secure" THEN Get(ServedMsg("DNSKEY", z), "ans").rdata ELSE {}
 ChainO(z) ==
-  IF z = "root"
+  IF ~Anchored THEN "Indeterminate"
+  ELSE IF z = AZ
   THEN IF Served("DNSKEY", z) /\ KeyRRsetOk(ServedMsg("DNSKEY", z), {Anchor})
        THEN "Secure" ELSE "Bogus"
   ELSE LET p == Parent(z) cp == ChainO(p) IN
@@ -779,7 +917,7 @@ ChainO(z) ==
                  THEN "Secure" ELSE "Bogus"
             ELSE IF \/ Has(m, "nd") /\ ProofGood(Get(m, "nd"), p, kp)
                     \/ Has(m, "nx") /\ ProofGood(Get(m, "nx"), p, kp) /\ Get(m, "nx").prf.optout
-                 THEN "Insecure" ELSE "Bogus"
+                 THEN (IF IterBog THEN "Bogus" ELSE "Insecure") ELSE "Bogus"
 
 \* security status of one RRset (RFC 4035 5.3, 4.3)
 RRsetO(g) ==
@@ -797,11 +935,8 @@ MeetAll(m, i) == IF i > Len(m) THEN "Secure" ELSE Meet(RRsetO(m[i]), MeetAll(m, 
 PrfOk(m, role) == Has(m, role) /\ Get(m, role).prf.covers = "ok" /\ RRsetO(Get(m, role)) = "Secure"
 OptOut(m, role) == Has(m, role) /\ Get(m, role).prf.optout
 
-\* the zone that answers the question
-QZone == IF scn.qk = "ds" THEN Parent(Leaf(scn.shape))
-         ELSE IF scn.qk = "dnamex" THEN "plain" ELSE Leaf(scn.shape)
-
 \* is the answer complete for the question (RFC 4035 5.4, RFC 5155 8.4-8.8)?
+HasSoa(m) == Has(m, "soa") /\ SoaFits(m)
 Complete(m) ==
   IF IsLoop(m) THEN TRUE
   ELSE
@@ -810,26 +945,40 @@ Complete(m) ==
          /\ scn.qk \in {"dname", "dnamex"} => Has(m, "dname")
          /\ scn.qk \in {"cname1", "cname2"} => Has(m, "cname1")
          /\ scn.qk = "cname2" => Has(m, "cname2")
-    [] scn.qk = "wildcard" -> Has(m, "ans") /\ (ChainO(QZone) = "Secure" => PrfOk(m, "nx"))
-    [] scn.qk = "nodata" -> Has(m, "soa") /\ (ChainO(QZone) = "Secure" => PrfOk(m, "nd"))
-    [] scn.qk = "nxdomain" -> Has(m, "soa") /\
+    [] scn.qk \in {"wildcard", "wilddeep"} ->
+         Has(m, "ans") /\ (ChainO(QZone) = "Secure" => PrfOk(m, "nx"))
+    [] scn.qk = "wcname" ->
+         Has(m, "ans") /\ Has(m, "cname1") /\ (ChainO(QZone) = "Secure" => PrfOk(m, "nx"))
+    [] scn.qk = "wcnodata" -> HasSoa(m) /\
+         (ChainO(QZone) = "Secure" =>
+             PrfOk(m, "nx") /\ PrfOk(m, "wc") /\ (scn.denial # "nsec" => PrfOk(m, "ce")))
+    [] scn.qk = "nodata" -> HasSoa(m) /\ (ChainO(QZone) = "Secure" => PrfOk(m, "nd"))
+    [] scn.qk = "nxdomain" -> HasSoa(m) /\
          (ChainO(QZone) = "Secure" => PrfOk(m, "nx") /\ PrfOk(m, "wc"))
-    [] scn.qk = "nxdeep" -> Has(m, "soa") /\
+    [] scn.qk = "nxdeep" -> HasSoa(m) /\
          (ChainO(QZone) = "Secure" =>
              PrfOk(m, "nx") /\ (scn.denial # "nsec" => PrfOk(m, "ce") /\ PrfOk(m, "wc")))
     [] scn.qk = "ds" -> \/ Has(m, "ans")
-                        \/ Has(m, "soa") /\ (PrfOk(m, "nd") \/ (PrfOk(m, "nx") /\ OptOut(m, "nx")))
+                        \/ HasSoa(m) /\ (PrfOk(m, "nd") \/ (PrfOk(m, "nx") /\ OptOut(m, "nx")))
 
 \* RFC 5155 9.2: an opt-out NSEC3 covering the next closer name => not authenticated
 OptOutUsed(m) ==
-  \/ scn.qk \in {"wildcard", "nxdomain", "nxdeep"} /\ (OptOut(m, "nx") \/ OptOut(m, "wc"))
+  \/ scn.qk \in (WildKinds \cup {"nxdomain", "nxdeep"}) /\ (OptOut(m, "nx") \/ OptOut(m, "wc"))
   \/ scn.qk = "ds" /\ ~Has(m, "ans") /\ ~Has(m, "nd") /\ OptOut(m, "nx")
 
+\* the answer rests on a denial proof (of a zone with NSEC3 when the iteration
+\* limits of the configuration matter)
+ProofUsed(m) == \/ scn.qk \in (WildKinds \cup NegKinds)
+                \/ scn.qk = "ds" /\ ~Has(m, "ans")
 AnswerO(m) ==
   IF ~Complete(m)
   THEN IF ChainO(QZone) = "Secure" THEN "Bogus" ELSE ChainO(QZone)
   ELSE LET all == MeetAll(m, 1) IN
-       IF all = "Secure" /\ OptOutUsed(m) THEN "Insecure" ELSE all
+       \* documented limits of the configuration: max_cname_dname, NSEC3 iterations
+       IF LinkCount(m) > MaxLinks THEN "Bogus"
+       ELSE IF all = "Secure" /\ ProofUsed(m) /\ IterBog THEN "Bogus"
+       ELSE IF all = "Secure" /\ (OptOutUsed(m) \/ (ProofUsed(m) /\ IterIns)) THEN "Insecure"
+       ELSE all
 
 Oracle == AnswerO(msg)
 NoInj(m) == SelectSeq(m, LAMBDA g : g.role # "inj")
@@ -837,8 +986,10 @@ NoInj(m) == SelectSeq(m, LAMBDA g : g.role # "inj")
 \* what the property admits for this scenario (DESIGN section 7: a set)
 \* rewrites that must not change anything: failing extra signatures within
 \* the validator's documented tolerance
+Harmless == {"AddBadSig1First", "AddBadSig1Last", "SigsFirst", "Duplicate"} \cup
+            (IF MaxBad = 2 THEN {"AddBadSig2First", "AddBadSig2Last"} ELSE {})
 BenignLog(log) ==
-  \/ \A i \in 1..Len(log) : log[i].act \in {"AddBadSig1First", "AddBadSig1Last"}
+  \/ \A i \in 1..Len(log) : log[i].act \in Harmless
   \/ ~late /\ \A i \in 1..Len(log) : log[i].act = "ShortSig"
   \/ Len(log) = 1 /\ log[1].act \in {"AddCollidingKeyFirst", "AddCollidingKeyLast",
                                          "AddExtraDsFirst", "AddExtraDsLast"}
@@ -847,17 +998,24 @@ BenignLog(log) ==
 RECURSIVE AllLog(_)
 AllLog(i) == IF i > Len(hist) THEN advlog ELSE hist[i].adv \o AllLog(i + 1)
 Benign == BenignLog(AllLog(1))
+\* (RFC 4035 4.3 calls data without a trust anchor above it Indeterminate; the
+\* property only demands that it is not reported secure.  With the iteration
+\* limit for "insecure" exceeded any signed NSEC3 may end the validation as
+\* Insecure.)
 Allowed ==
-  IF Benign THEN {Oracle}
-  ELSE IF Oracle = "Bogus" THEN {"Bogus"}
-  ELSE {Oracle, "Bogus"}
+  (IF Oracle = "Indeterminate" THEN {"Indeterminate", "Insecure"} ELSE {Oracle})
+  \cup (IF Benign THEN {} ELSE {"Bogus"})
+  \cup (IF ~Benign /\ IterIns /\ Oracle # "Secure" THEN {"Insecure"} ELSE {})
 
 -----------------------------------------------------------------------------
 (* Properties *)
 
 Finished == pc = "done"
 SecureShape == LeafSecure(scn.shape)
-OptOutCase == scn.denial = "optout" /\ scn.qk \in {"wildcard", "nxdomain", "nxdeep"}
+OptOutCase == scn.denial = "optout" /\ scn.qk \in (WildKinds \cup {"nxdomain", "nxdeep"})
+\* configured limits that (as documented) keep an honest answer from being Secure
+CfgLimited == \/ LinkCount(msg) > MaxLinks
+              \/ (IterIns \/ IterBog) /\ (ProofUsed(msg) \/ ~SecureShape)
 
 \* Caches are transparent: when the chain was fetched without interference in
 \* the earlier runs, a later verdict is the one this answer gets on a fresh
@@ -868,13 +1026,20 @@ CacheTransparent ==
   Finished /\ run > 1 /\ (\A i \in 1..Len(hist) : \A j \in 1..Len(hist[i].adv) :
                                hist[i].adv[j].t = "ANS")
      => result \in Allowed /\ (advlog = <<>> /\ ~OptOutCase /\ LeafSecure(scn.shape)
-                               /\ scn.qk # "dnamex" => result = "Secure")
+                               /\ scn.qk # "dnamex" /\ Anchored /\ ~CfgLimited => result = "Secure")
 Soundness == Finished /\ result = "Secure" => Oracle = "Secure"
 HonestSecure == Finished /\ Benign /\ SecureShape /\ ~OptOutCase /\ scn.qk # "dnamex"
+                   /\ Anchored /\ ~CfgLimited
                    => result = "Secure"
 InsecureNotBogus ==
   Finished /\ Benign /\ ((~SecureShape /\ scn.qk # "ds") \/ scn.qk = "dnamex")
+     /\ Anchored /\ ~IterBog /\ LinkCount(msg) <= MaxLinks
      => result = "Insecure"
+\* without a trust anchor above the name nothing is secure; the honest answer
+\* is Indeterminate
+NoAnchorNotSecure == Finished /\ ~Anchored => result # "Secure" /\ (Benign => result = "Indeterminate")
+\* the documented limits of the configuration are enforced
+LimitsEnforced == Finished /\ Benign /\ Anchored /\ SecureShape /\ CfgLimited => result # "Secure"
 WithinAllowed == Finished => result \in Allowed
 NoPanic == result # "panic"
 MaxSteps == 80
